@@ -327,4 +327,4 @@ def run(chk):
     wide = [(chk.seed * 1000 + i, pid, per) for i in range(n // per)]
     from .. import suite
     extra = suite.suite_rows(pid, chk) if (tier == 'thorough' and pid in ('C07', 'C08')) else None
-    return core.stream(SMALL[pid], [(row, pid, tier, i) for i, row in enumerate(rows)], WIDE[pid], wide, tier, step=120, extra=extra)
+    return core.stream(SMALL[pid], [(row, pid, tier, i) for i, row in enumerate(rows)], WIDE[pid], wide, tier, step={'C07': 40, 'C08': 8, 'C09': 60}[pid], extra=extra)
